@@ -166,6 +166,8 @@ def mgs_engine(ctx):
         rng = ctx.rng("mgs", i)
         kw, scale = gen2.rand_mgs(rng)
         rep = {"class": "MinGenSet", "args": describe(kw)}
+        if kw["max_multiplicity"] > 1 and max(kw["numbers"]) > max(kw["total"], kw["max_multiplicity"]):
+            ctx.dist("mgs multiplicity>1 with a number above max(total, multiplicity)" + (" (fractional maximum)" if float(max(kw["numbers"])) != int(max(kw["numbers"])) else ""))
         ctx.dist(f"mgs mult={kw['max_multiplicity']} {'int' if kw['weight_type'] == int else 'float'}"
                  f"{' parts' if kw.get('partition_constraints') else ''}")
         try:
@@ -284,6 +286,16 @@ def witness_probes(ctx):
         if r["ok"] and len(r["m"].get_solution()) != 1:
             ctx.report(f"MinGenSet([1,2], total 1, multiplicity 2) returns {r['m'].get_solution()} although {{1}} generates both numbers", {"class": "MinGenSet", "args": describe(kw)},
                        key="mgs_pi_bounded_by_total")
+    # fixed corpus: a number above max(total, max_multiplicity), fractional and integral (pi bound = max(total, numbers), a068bcc)
+    for nums, total, mult, wt in (([3.75, 1.25], 1.25, 3, float), ([7.5], 2.5, 3, float), ([6, 3], 3, 2, int)):
+        kw = dict(numbers=nums, total=total, weight_type=wt, max_multiplicity=mult, lowerbound=1, remove_complement_values=True)
+        r = run_mgs(ctx, kw)
+        ctx.count("probe_witness", "cases")
+        check_mgs_answer(ctx, kw, F(5, 4) if wt == float and total == 1.25 else (F(5, 2) if wt == float else 1), r,
+                         {"class": "MinGenSet", "args": describe(kw), "witness": "one element (the total) generates every number with a multiplicity"})
+        if not r["ok"] or len(r["m"].get_solution()) != 1:
+            ctx.report(f"MinGenSet({nums}, total {total}, multiplicity {mult}) returns {r['m'].get_solution() if r['ok'] else 'unsolved'} although {{{total}}} generates every number",
+                       {"class": "MinGenSet", "args": describe(kw)})
     kw = dict(numbers=[2, 3, 2], total=5, weight_type=int, max_multiplicity=2, lowerbound=1, remove_complement_values=True)
     r = run_mgs(ctx, kw)
     ctx.count("probe_witness", "cases")
